@@ -27,6 +27,8 @@
     12  an end tag while `current` is a CDATA section directly below the root element  (not Expat-shaped: the C leaves the
         CDATA node AND the root element; the SyncML data type of the root element is always "normal", so the front end
         never adds a CDATA section there by itself)
+   2, 8, 10 and 12 never fire on a list of the shape Expat delivers (Proofs/XmlFrontShape.v: shape_clauses_silent); on the
+   project's tables, with attribute names made of octets, only 1, 3, 4, 6, 9 and 11 can (clauses_that_matter).
    NOT a clause: character data for which the front end ADDS a CDATA section (the SyncML data type of the enclosing <Data>
    is text/clear, a vCard / vCalendar type, or the Add/Replace hack applies).  The tree then holds an explicit CDATA node,
    `events_of` writes it as a CDATA section, and on re-reading the data type is the same (dt_same_tag, dt_through_cdata:
